@@ -57,23 +57,26 @@ ASSUMPTIONS = ["weights and sums below 2^53",
                "slices does. The models carry both lists as immutable values accordingly (Model/CodonTables.lean, heap model)",
                "cut-offs that are NaN or +/-Inf are outside the quantifier ([-1,2]): correspondence only, not judged", "amd64: int(NaN) = -2^63 (only reachable outside the judged domain)",
                "inputs are ASCII"]
-PARTIAL = ["EVERY numeric clause is proved for EXACT arithmetic only (compromise_weight, compromise_mean, compromise_zero_below, "
-           "compromise_never_rare, optimize_compromise_never_rare*, compromise_symm, compromise_rejects: rational cut-off, shares "
-           "floor(10000 w / total)). The code computes in float64 and is compared bit-exactly with the float64 instance of the same "
-           "function; the step exact <-> float64 is TESTED by that correspondence and by the judge, not proved (Lean's Float is "
-           "opaque to the kernel)",
-           "compromise_symm_any / compromise_rejects_any / compromise_keeps_code hold for every arithmetic record; the hypothesis of "
-           "compromise_symm_any (the mean is commutative) CANNOT be discharged for floatArith in Lean (opaque Float), so the exact "
-           "symmetry of the real function is a theorem only modulo that IEEE fact; it is observed (judge demands r12 = r21 as maps)",
-           "the last clause is proved on the truncated 10000 scale (floor(10000 c) <= floor(10000 share)), i.e. 'not rarer than the "
-           "cut-off' up to 1e-4; optimize_compromise_never_rare_model links it to C07's model of codon.Optimize (Emits); the "
-           "draw-level behaviour of the real weighted chooser is C07's correspondence, here the judge checks the clause on the real "
-           "codon.Optimize output and that Optimize errs exactly when a residue has no codon above the 10 % share",
-           "judge: no tolerance band; a weight must equal one of three named readings of the statement that can differ by rounding "
-           "only: (a) float64 arithmetic (independent round-to-nearest-even over Nat, Spec rne / shareF64 / cutF64), (b) exact "
-           "arithmetic truncated before comparing (the theorems' model), (c) exact arithmetic compared before truncation; classes "
-           "ending in 'fx' count the cases where (a) and (b) differ"]
-PROOF_MODULES = ["PolyVerif.Props.C18", "PolyVerif.Props.C18Optimize"]
+PARTIAL = ["the numeric clauses are theorems for TWO readings: exact arithmetic (Props/C18: compromise_weight, _mean, _zero_below, "
+           "_never_rare, _symm; rational cut-off, shares floor(10000 w/total)) and float64 arithmetic as the code computes it "
+           "(Props/C18F64: compromise_weight_f64, _zero_below_f64, _mean_f64, _positive_f64, _symm_f64, compromise_never_rare_f64), "
+           "tied by the proved BRIDGE shareF64_bounds (float64 share = exact share or one less, totals <= 2^38) and cutF64_bounds "
+           "(|int(10000c) - 10000c| <= 10000c 2^-53 + 1). What stays UNPROVED and is checked on every case instead: that the real "
+           "code computes exactly `compromise f64Arith` - the float64 semantics in the theorems is the Nat-level model rne (IEEE "
+           "binary64 round-to-nearest-even; Lean's Float is opaque to the kernel), corresponded bit for bit with Go (driver corr: "
+           "implementation == f64Arith instance == Lean Float instance); f64Arith.mean is (a+b)/2 truncated, i.e. float64 adds and "
+           "halves integers up to 20000 exactly (not derived from rne)",
+           "compromise_symm_any's hypothesis (commutative mean) is discharged for f64Arith (compromise_symm_f64) but cannot be "
+           "for Lean's opaque Float instance",
+           "the last clause: exact reading on the truncated scale (floor(10000c) <= floor(10000 share)); float64 reading stated "
+           "exactly: a codon with positive weight has real share > c(1-2^-53) - 1/10000 in both tables "
+           "(compromise_never_rare_f64); optimize_compromise_never_rare_model links the exact reading to C07's model of "
+           "codon.Optimize (Emits); the real chooser's draws are C07's correspondence, the judge checks the clause on the real "
+           "Optimize output",
+           "judge: no tolerance band; a weight must equal one of three named readings of the statement that can differ by "
+           "rounding only: (a) float64 (rne / shareF64 / cutF64), (b) exact arithmetic truncated before comparing, (c) exact "
+           "arithmetic compared before truncation; classes ending in 'fx' count the cases where (a) and (b) differ"]
+PROOF_MODULES = ["PolyVerif.Props.C18", "PolyVerif.Props.C18Optimize", "PolyVerif.Props.C18F64"]
 TIMEOUT_MS = 30000
 
 
@@ -274,7 +277,8 @@ def cases(seed, tier):
 
 TECHNIQUE = ("Lean 4 proof over an exact-rational model of AddCodonTable / CompromiseCodonTable (written once over an "
              "arithmetic record, instantiated exact and float64); differential correspondence against the float64 instance")
-LEVEL_TEXT = ("add_sums, add_keeps_code, compromise_mean, compromise_zero_below, compromise_symm, compromise_rejects, "
+LEVEL_TEXT = ("float64 reading (Props/C18F64): shareF64_bounds, cutF64_bounds (bridge), compromise_weight_f64, _zero_below_f64, "
+              "_mean_f64, _symm_f64, compromise_never_rare_f64 over the Nat-level binary64 model; exact reading: add_sums, add_keeps_code, compromise_mean, compromise_zero_below, compromise_symm, compromise_rejects, "
               "compromise_keeps_code, compromise_never_rare are kernel-checked for all pairs of well-formed tables over the same "
               "code (any order of amino acids and codons in the second table) and all rational cut-offs; the implementation is "
               "compared bit-exactly with the float64 instance of the same model and judged by the exact spec within +/-1.")
